@@ -1,4 +1,289 @@
-import BipVerif.Model.Bip44
+/-
+C04 — public/private commutation of child key derivation.
+
+Part B: `CKDpub ∘ N = N ∘ CKDpriv` for non-hardened indices (SLIP-0010 ECDSA curves and
+BIP32-Ed25519), as equations between model results, under an explicit *law* about the key layer
+(`EcdsaLaw`, `KholawLaw`): the group laws of the concrete 256-bit curves in `Prim` are out of scope
+and are never unfolded.
+Part C: each law holds in every abstract model in which public keys form a commutative group
+whose base point has the curve order (Mathlib).
+
+Deliberately *not* claimed: commutation for the Byron-legacy scheme (finding F-byron-pubder: the
+byte-wise scalar reaches bit 255, which libsodium's no-clamp multiplication clears) and
+commutation at a zero sum `(IL + k) ≡ 0 (mod n)` (see `zero_sum_asymmetry`: it is false there).
+Property theorems only; lemmas in `BipVerif/Lemmas/{Slip10,Kholaw,GroupModel}.lean`.
+-/
+import BipVerif.Lemmas.GroupModel
+
 namespace BipVerif.Props.C04
-theorem placeholder : True := trivial
+open BipVerif BipVerif.Prim BipVerif.Model BipVerif.GroupModel
+
+/-! ## B.1 SLIP-0010, ECDSA curves -/
+
+/-- The hypotheses of the commutation theorem, unfolded.
+`EcdsaLaw c`: (`pub_add`) for valid keys `k`, `k'` with `k' = (il + k) mod n ≠ 0`, `il < n` and
+`P = pubOfPriv k`: `pubAddMulG P il = pubOfPriv k'` and this is an actual key;
+(`pub_canon`) `pubFromBytes` accepts `pubOfPriv k` unchanged.
+`Node.Sound nd`: private node whose `pub` is the public key of its valid private key.
+`NoZeroSum nd idx`: the `IL` at which the *public* re-hash loop stops does not make the child
+private key zero. -/
+theorem hypotheses_unfold (c : CurveT) (nd : Node) (idx : Nat) :
+    (EcdsaLaw c ↔
+      (∀ (k P : Bytes) (il : Nat) (k' : Bytes), privValid c k = true → pubOfPriv c k = some P →
+        il < c.order → (il + Bytes.toNatBE k) % c.order ≠ 0 → privValid c k' = true →
+        Bytes.toNatBE k' = (il + Bytes.toNatBE k) % c.order →
+        ∃ P', pubOfPriv c k' = some P' ∧ pubAddMulG c P il = some P') ∧
+      (∀ (k P : Bytes), privValid c k = true → pubOfPriv c k = some P → pubFromBytes c P = some P)) ∧
+    (nd.Sound ↔ ∃ k, nd.priv = some k ∧ privValid nd.curve k = true ∧
+      pubOfPriv nd.curve k = some nd.pub) ∧
+    (NoZeroSum nd idx ↔ ∀ k il ir, nd.priv = some k →
+      slip10Retry nd.curve.order nd.chainCode idx none 4096
+        (hmacSha512Halves nd.chainCode (nd.pub ++ ser32 idx)) = .ok (il, ir) →
+      (il + Bytes.toNatBE k) % nd.curve.order ≠ 0) :=
+  ⟨⟨fun h => ⟨h.pub_add, h.pub_canon⟩, fun h => ⟨h.1, h.2⟩⟩, Iff.rfl, Iff.rfl⟩
+
+/-- **commutation**: deriving the non-hardened child `idx` from the neutered parent gives the
+neutered child — the same public key, chain code, depth, index and parent fingerprint, or the
+same error — for ECDSA curves, under the key-layer law and `NoZeroSum`.  (Also for `idx ≥ 2^32`:
+both sides raise `ValueError`.) -/
+theorem ckdPub_comm (nd : Node) (law : EcdsaLaw nd.curve) (idx : Nat)
+    (hc : nd.curve.isEcdsa = true) (hs : nd.Sound) (hh : isHardened idx = false)
+    (hz : NoZeroSum nd idx) :
+    slip10ChildKey nd.neuter idx = (slip10ChildKey nd idx).map Node.neuter :=
+  Model.ckdPub_comm nd law idx hc hs hh hz
+
+/-- the same, field by field, when the private side succeeds -/
+theorem ckdPub_comm_fields (nd : Node) (law : EcdsaLaw nd.curve) (idx : Nat)
+    (hc : nd.curve.isEcdsa = true) (hs : nd.Sound) (hh : isHardened idx = false)
+    (hz : NoZeroSum nd idx) (c : Node) (hpriv : slip10ChildKey nd idx = .ok c) :
+    ∃ c', slip10ChildKey nd.neuter idx = .ok c' ∧ c'.priv = none ∧ c'.pub = c.pub ∧
+      c'.chainCode = c.chainCode ∧ c'.depth = c.depth ∧ c'.index = c.index ∧
+      c'.parentFp = c.parentFp ∧ c'.curve = c.curve ∧ c'.scheme = c.scheme := by
+  refine ⟨c.neuter, ?_, rfl, rfl, rfl, rfl, rfl, rfl, rfl, rfl⟩
+  rw [Model.ckdPub_comm nd law idx hc hs hh hz, hpriv]; rfl
+
+/-- the two re-hash loops side by side: where the public loop stops with a non-zero sum the
+private loop stops too; where the public loop runs out of fuel so does the private one -/
+theorem retry_agree (n : Nat) (cc : Bytes) (idx k fuel : Nat) (s : Bytes × Bytes) :
+    (∀ il ir, slip10Retry n cc idx none fuel s = .ok (il, ir) → (il + k) % n ≠ 0 →
+      slip10Retry n cc idx (some k) fuel s = .ok (il, ir)) ∧
+    (∀ e, slip10Retry n cc idx none fuel s = .error e →
+      slip10Retry n cc idx (some k) fuel s = .error e) :=
+  ⟨fun il ir h hz => slip10Retry_none_ok_some n cc idx k fuel s il ir h hz,
+   fun e h => slip10Retry_none_error_some n cc idx k fuel s e h⟩
+
+/-- **asymmetry at a zero sum**: if the `IL` at which the public loop stops satisfies
+`(IL + k) ≡ 0 (mod n)` then (given that the key layer maps the resulting point at infinity to
+"no key", `EcdsaInfLaw`) the public side raises `Bip32KeyError`, whereas the private side
+re-hashes from `HMAC(cc, 0x01 ‖ IR ‖ ser32 idx)` and never raises `Bip32KeyError`: the
+commutation equation is false there. -/
+theorem zero_sum_asymmetry (nd : Node) (ilaw : EcdsaInfLaw nd.curve) (k : Bytes) (idx il : Nat)
+    (ir : Bytes) (hc : nd.curve.isEcdsa = true) (hp : nd.priv = some k)
+    (hv : privValid nd.curve k = true) (hpub : pubOfPriv nd.curve k = some nd.pub)
+    (hh : isHardened idx = false) (hi : idx < 2 ^ 32)
+    (hr : slip10Retry nd.curve.order nd.chainCode idx none 4096
+            (hmacSha512Halves nd.chainCode (nd.pub ++ ser32 idx)) = .ok (il, ir))
+    (hz : (il + Bytes.toNatBE k) % nd.curve.order = 0) :
+    slip10ChildKey nd.neuter idx = .error .key ∧
+    (∃ f', f' < 4096 ∧
+      slip10Retry nd.curve.order nd.chainCode idx (some (Bytes.toNatBE k)) 4096
+          (hmacSha512Halves nd.chainCode (nd.pub ++ ser32 idx)) =
+        slip10Retry nd.curve.order nd.chainCode idx (some (Bytes.toNatBE k)) f'
+          (hmacSha512Halves nd.chainCode ([1] ++ ir ++ ser32 idx))) ∧
+    slip10ChildKey nd idx ≠ .error .key ∧
+    slip10ChildKey nd.neuter idx ≠ (slip10ChildKey nd idx).map Node.neuter := by
+  obtain ⟨h1, ⟨f', hf, h2⟩, h3, h4⟩ :=
+    Model.zero_sum_asymmetry nd ilaw k idx il ir hc hp hv hpub hh hi hr hz
+  refine ⟨h1, ⟨f', hf, ?_⟩, h3, h4⟩
+  have hdata : slip10PrivData nd k idx = nd.pub ++ ser32 idx := by
+    unfold slip10PrivData; rw [hh]; rfl
+  rw [hdata] at h2
+  exact h2
+
+/-- under both laws the zero-sum condition is exactly the obstruction: commutation at `(nd, idx)`
+holds **iff** the public loop does not stop at a zero sum -/
+theorem ckdPub_comm_iff (nd : Node) (law : EcdsaLaw nd.curve) (ilaw : EcdsaInfLaw nd.curve)
+    (idx : Nat) (hc : nd.curve.isEcdsa = true) (hs : nd.Sound) (hh : isHardened idx = false)
+    (hi : idx < 2 ^ 32) :
+    slip10ChildKey nd.neuter idx = (slip10ChildKey nd idx).map Node.neuter ↔ NoZeroSum nd idx :=
+  Model.ckdPub_comm_iff nd law ilaw idx hc hs hh hi
+
+/-- `PathNoZeroSum nd l`: `NoZeroSum` at every node visited on the private side -/
+theorem pathNoZeroSum_unfold (nd : Node) (i : Nat) (t : List Nat) :
+    (PathNoZeroSum nd [] ↔ True) ∧
+    (PathNoZeroSum nd (i :: t) ↔
+      NoZeroSum nd i ∧ ∀ c, slip10ChildKey nd i = .ok c → PathNoZeroSum c t) :=
+  ⟨Iff.rfl, Iff.rfl⟩
+
+/-- **commutation along a path**: `DerivePath` commutes with neutering for every path without
+hardened elements -/
+theorem derivePath_comm (nd : Node) (law : EcdsaLaw nd.curve) (hc : nd.curve.isEcdsa = true)
+    (p : Path) (hl : ∀ i ∈ p.elems, isHardened i = false) (hs : nd.Sound)
+    (hz : PathNoZeroSum nd p.elems) :
+    derivePathWith slip10ChildKey nd.neuter p =
+      (derivePathWith slip10ChildKey nd p).map Node.neuter :=
+  Model.derivePath_comm nd law hc p hl hs hz
+
+/-- commutation from the master key: the master node is sound, so only the law and the
+zero-sum condition remain -/
+theorem master_derivePath_comm (c : CurveT) (law : EcdsaLaw c) (hc : c.isEcdsa = true)
+    (seed : Bytes) (m : Node) (hm : slip10Master c seed = .ok m)
+    (p : Path) (hl : ∀ i ∈ p.elems, isHardened i = false) (hz : PathNoZeroSum m p.elems) :
+    derivePathWith slip10ChildKey m.neuter p =
+      (derivePathWith slip10ChildKey m p).map Node.neuter := by
+  have hcur : m.curve = c := (master_metadata c seed m hm).2.2.2.2.1
+  exact Model.derivePath_comm m (hcur ▸ law) (hcur ▸ hc) p hl (master_sound c seed m hm) hz
+
+/-- every node derived from a public-only node is public-only (no law needed) -/
+theorem neuter_derive_public_only (nd : Node) (p : Path) (c : Node) (hp : nd.priv = none)
+    (h : derivePathWith slip10ChildKey nd p = .ok c) : c.priv = none :=
+  Model.neuter_derive_public_only nd p c hp h
+
+/-! ## B.2 BIP32-Ed25519 (scheme `.kholaw`) -/
+
+/-- the standard Khovratovich-Law scalar `8·zl[:28]` is below `2^227`, so libsodium's clearing of
+bit 255 (`% 2^255` in the model's public side) is the identity on it -/
+theorem kholaw_scalar_lt (zl : Bytes) :
+    kholawPubScalar .kholaw zl < 2 ^ 227 ∧
+      kholawPubScalar .kholaw zl % 2 ^ 255 = kholawPubScalar .kholaw zl :=
+  ⟨Model.kholaw_scalar_lt zl, Model.kholaw_scalar_mod zl⟩
+
+/-- `KholawLaw` unfolded (all scalars `< 2^255`) -/
+theorem kholawLaw_unfold :
+    KholawLaw ↔
+      (∀ a b, a + b < 2 ^ 255 → edAdd (edMulBase a) (edMulBase b) = edMulBase (a + b)) ∧
+      (∀ s, s < 2 ^ 255 → (edMulBase s = edIdentity ↔ s % edL = 0)) ∧
+      (∀ s, s < 2 ^ 255 → edMulBase s ≠ edIdentity →
+        edDecodeLenient (edEncode (edMulBase s)) = some (edMulBase s)) ∧
+      (∀ s, s < 2 ^ 255 → edMulBase s ≠ edIdentity →
+        edBytesOnCurve (edEncode (edMulBase s)) = some true) :=
+  ⟨fun h => ⟨h.add_mul, h.mul_id, h.dec_enc, h.on_curve⟩, fun h => ⟨h.1, h.2.1, h.2.2.1, h.2.2.2⟩⟩
+
+/-- **commutation, BIP32-Ed25519**: for scheme `.kholaw`, non-hardened `idx`, a private node
+whose `pub` is the public key of its private key: the child of the neutered node is the neutered
+child (or the same error — in particular `Bip32KeyError` on both sides when
+`kL + 8·zl[:28] ≡ 0 (mod L)`).  Explicit range hypothesis: the child's left scalar stays below
+`2^255`; `Z = HMAC-SHA512(cc, 0x02 ‖ A ‖ ser32LE idx)`. -/
+theorem kholaw_ckdPub_comm (law : KholawLaw) (nd : Node) (k : Bytes) (idx : Nat)
+    (hcur : nd.curve = .ed25519Kholaw) (hsch : nd.scheme = .kholaw)
+    (hp : nd.priv = some k) (hpub : pubOfPriv .ed25519Kholaw k = some nd.pub)
+    (hh : isHardened idx = false)
+    (hrange : Bytes.toNatLE (k.take 32) +
+        kholawPubScalar .kholaw
+          ((hmacSha512 nd.chainCode ([2] ++ nd.pub.drop 1 ++ kholawIndexBytes nd.scheme idx)).take 32)
+        < 2 ^ 255) :
+    kholawChildKey nd.neuter idx = (kholawChildKey nd idx).map Node.neuter :=
+  Model.kholaw_ckdPub_comm law nd k idx hcur hsch hp hpub hh hrange
+
+/-- a sufficient, `Z`-independent form of the range hypothesis: `kL < 2^255 - 2^227` -/
+theorem kholaw_ckdPub_comm_of_small (law : KholawLaw) (nd : Node) (k : Bytes) (idx : Nat)
+    (hcur : nd.curve = .ed25519Kholaw) (hsch : nd.scheme = .kholaw)
+    (hp : nd.priv = some k) (hpub : pubOfPriv .ed25519Kholaw k = some nd.pub)
+    (hh : isHardened idx = false) (hk : Bytes.toNatLE (k.take 32) < 2 ^ 255 - 2 ^ 227) :
+    kholawChildKey nd.neuter idx = (kholawChildKey nd idx).map Node.neuter := by
+  refine Model.kholaw_ckdPub_comm law nd k idx hcur hsch hp hpub hh ?_
+  have := Model.kholaw_scalar_lt ((kholawZ nd idx).take 32)
+  omega
+
+/-- **Byron legacy is different** (F-byron-pubder, recorded finding — no commutation claimed): the
+byte-wise scalar `8·zl` computed without carries reaches bit 255, and then the scalar the public
+side really multiplies by (bit 255 cleared) is not congruent mod `L` to the one the private side
+adds; by `pub_eq_iff` below the two sides then disagree in every group model. -/
+theorem byron_scalar_mismatch :
+    ∃ zl : Bytes, zl.length = 32 ∧ 2 ^ 255 ≤ kholawPubScalar .byronLegacy zl ∧
+      (kholawPubScalar .byronLegacy zl % 2 ^ 255) % edL ≠ kholawPubScalar .byronLegacy zl % edL :=
+  ⟨List.replicate 31 0 ++ [16], by decide, by decide, by decide⟩
+
+/-! ## C. the laws hold in every abstract group model -/
+
+section GroupModel
+variable {G : Type*} [AddCommGroup G] {g : G} {n : ℕ}
+
+/-- the child public key computed from the parent public point equals the public key of the child
+private key: `pub((k + il) mod n) = pub k + il·G` -/
+theorem mod_nsmul (hord : ∀ k : ℕ, k • g = 0 ↔ n ∣ k) (k il : ℕ) :
+    ((k + il) % n) • g = k • g + il • g :=
+  pub_add_mod hord k il
+
+/-- `pub k` is the point at infinity iff `n ∣ k` (that is the hypothesis) and the public side
+meets the point at infinity exactly when the private side meets the zero key -/
+theorem zero_key_iff_infinity (hord : ∀ k : ℕ, k • g = 0 ↔ n ∣ k) (k il : ℕ) :
+    ((k + il) % n ≠ 0 ↔ k • g + il • g ≠ 0) ∧ ((k + il) % n = 0 ↔ k • g + il • g = 0) :=
+  ⟨nonzero_key_iff_finite hord k il, GroupModel.zero_key_iff_infinity hord k il⟩
+
+/-- distinct residues give distinct public keys -/
+theorem pub_eq_iff (hord : ∀ k : ℕ, k • g = 0 ↔ n ∣ k) (a b : ℕ) :
+    a • g = b • g ↔ a % n = b % n :=
+  GroupModel.pub_eq_iff hord a b
+
+/-- Electrum v1: `pub((m + s) mod n) = pub m + s·G` -/
+theorem electrumV1_pub (hord : ∀ k : ℕ, k • g = 0 ↔ n ∣ k) (m s : ℕ) :
+    ((m + s) % n) • g = m • g + s • g :=
+  GroupModel.electrumV1_pub hord m s
+
+/-- Monero sub-address keys: `D = B + m·G = pub((b + m) mod n)` and `C = a·D = pub(a·d mod n)` -/
+theorem monero_subaddr (hord : ∀ k : ℕ, k • g = 0 ↔ n ∣ k) (a b m : ℕ) :
+    b • g + m • g = ((b + m) % n) • g ∧
+      a • (b • g + m • g) = (a * ((b + m) % n) % n) • g :=
+  GroupModel.monero_subaddr hord a b m
+
+end GroupModel
+
+/-- **`EcdsaLaw` from a group model**: if the ECDSA key layer of `c` is a faithful encoding of
+*any* commutative group whose base point has order `c.order` (`EcdsaGroupModel`: `pubOfPriv`,
+`pubAddMulG`, `pubFromBytes` commute with a partial encoding `enc` that is undefined exactly at
+the neutral element), then both laws used in part B hold. -/
+theorem ecdsaLaw_of_group_model {G : Type*} [AddCommGroup G] {c : CurveT} {g : G}
+    {enc : G → Option Bytes} (M : EcdsaGroupModel c g enc) : EcdsaLaw c ∧ EcdsaInfLaw c :=
+  ⟨GroupModel.ecdsaLaw_of_group_model M, GroupModel.ecdsaInfLaw_of_group_model M⟩
+
+/-- the hypotheses of a faithful encoding, unfolded -/
+theorem ecdsaGroupModel_unfold {G : Type*} [AddCommGroup G] (c : CurveT) (g : G)
+    (enc : G → Option Bytes) :
+    EcdsaGroupModel c g enc ↔
+      (∀ k : ℕ, k • g = 0 ↔ c.order ∣ k) ∧
+      (∀ k : ℕ, enc (k • g) = none ↔ k • g = 0) ∧
+      (∀ k : Bytes, privValid c k = true → pubOfPriv c k = enc (Bytes.toNatBE k • g)) ∧
+      (∀ (k : ℕ) (P : Bytes) (il : ℕ), enc (k • g) = some P →
+        pubAddMulG c P il = enc (k • g + il • g)) ∧
+      (∀ (k : ℕ) (P : Bytes), enc (k • g) = some P → pubFromBytes c P = some P) :=
+  ⟨fun h => ⟨h.order, h.enc_none, h.pub_of_priv, h.add_mul_g, h.canon⟩,
+   fun h => ⟨h.1, h.2.1, h.2.2.1, h.2.2.2.1, h.2.2.2.2⟩⟩
+
+/-- **`KholawLaw` from a group model** of the Edwards point layer (`EdGroupModel`: base point of
+order `L`, `edMulBase s = pt (s·B)` for `s < 2^255`, `edAdd` the group law, `decode ∘ encode = id`
+and on-curve acceptance on non-identity multiples of `B`) -/
+theorem kholawLaw_of_group_model {G : Type*} [AddCommGroup G] {B : G} {pt : G → EdPoint}
+    (M : EdGroupModel B pt) : KholawLaw :=
+  GroupModel.kholawLaw_of_group_model M
+
+/-- commutation with the law discharged by a group model -/
+theorem ckdPub_comm_of_group_model {G : Type*} [AddCommGroup G] (nd : Node) {g : G}
+    {enc : G → Option Bytes} (M : EcdsaGroupModel nd.curve g enc) (idx : Nat)
+    (hc : nd.curve.isEcdsa = true) (hs : nd.Sound) (hh : isHardened idx = false)
+    (hz : NoZeroSum nd idx) :
+    slip10ChildKey nd.neuter idx = (slip10ChildKey nd idx).map Node.neuter :=
+  Model.ckdPub_comm nd (GroupModel.ecdsaLaw_of_group_model M) idx hc hs hh hz
+
+/-- the purely abstract statement: a key layer built from any group with a base point of order
+`n` (keys = non-neutral elements) satisfies the abstract law — the child public key computed
+from the parent public key is the public key of the child private key when that key is non-zero,
+and "no key" (point at infinity) exactly otherwise -/
+theorem keyLayer_law {G : Type*} [AddCommGroup G] [DecidableEq G] {g : G} {n : ℕ}
+    (hord : ∀ k : ℕ, k • g = 0 ↔ n ∣ k) :
+    ∀ k P il, (KeyLayer.ofGroup g n).pubOfPriv k = some P →
+      ((il + k) % n ≠ 0 →
+        ∃ P', (KeyLayer.ofGroup g n).pubOfPriv ((il + k) % n) = some P' ∧
+          (KeyLayer.ofGroup g n).pubAddMulG P il = some P') ∧
+      ((il + k) % n = 0 → (KeyLayer.ofGroup g n).pubAddMulG P il = none) :=
+  KeyLayer.ofGroup_law hord
+
+/-- the group-model hypothesis is satisfiable for every `n`: `ℤ/n` with base point `1` -/
+example (n : ℕ) : ∀ k : ℕ, k • (1 : ZMod n) = 0 ↔ n ∣ k := fun k => by
+  rw [nsmul_eq_mul, mul_one]; exact ZMod.natCast_eq_zero_iff k n
+
+/-- … hence a concrete law-abiding key layer exists for every order -/
+example (n : ℕ) : (KeyLayer.ofGroup (1 : ZMod n) n).Law :=
+  KeyLayer.ofGroup_law (fun k => by rw [nsmul_eq_mul, mul_one]; exact ZMod.natCast_eq_zero_iff k n)
+
 end BipVerif.Props.C04
